@@ -158,7 +158,9 @@ def remove_negligible_negative_values(material):
         material_sum = abs(material).sum()
         if material_sum > 1e-16:
             negligible = material[negative_index] / material_sum > -1e-16
-            material[negligible] = 0. 
+            # `negligible` marks entries of `negative_index`, not positions of `material`
+            negligible_index = tuple([np.asarray(i, dtype=int)[negligible] for i in negative_index])
+            material[negligible_index] = 0.
         else:
             material[negative_index] = 0. 
 
